@@ -160,7 +160,10 @@ def check_value(got, tab, zkey, x, y, cls, sig):
     cands, where, lo, hi = expect(tab, zkey, x, y)
     if got != got or not math.isfinite(got):
         raise Fail(sig + ".nan", "query (io={!r}, vi={!r}) [{}] gives {!r}".format(x, y, cls, got))
-    tol = REL * max(abs(hi), abs(got)) + 1e-300
+    # barycentric arithmetic: relative to the magnitude of the table's values (a cell whose
+    # corners are all 0 next to a non-zero entry can come out as 1e-17)
+    zmax = max(abs(v) for row in tab[zkey] for v in row)
+    tol = REL * max(abs(hi), abs(got), zmax) + 1e-300
     if not any(abs(got - c) <= tol for c in cands):
         raise Fail("{}.{}".format(sig, where),
                    "query (io={!r}, vi={!r}) [{} / {}]: got {!r}, expected {} (cell corner "
